@@ -181,6 +181,18 @@ Theorem C11_removal_after_simplify_refuted :
 Proof. exact removal_after_simplify_refuted. Qed.
 Print Assumptions C11_removal_after_simplify_refuted.
 
+(* refuted (K38): an edit answered Recompile applies adjust_intern_cnf TWICE (once in
+   transform_to_cnf_from_starting_cnf, once in recompile_everything); the second round removes a
+   clause that the first round shortened to a removed clause.  CNF {-1 -2}, edit (remove {-1}, add
+   {2}): the compiled list is {2} (2 models) instead of {-1 -2},{2} (1 model) *)
+Theorem C11_recompile_adjusts_twice_refuted :
+  recompile_stored [[-1; -2]] [[2]] [[-1]] = [[2]] /\
+  cnf_models_n (recompile_stored [[-1; -2]] [[2]] [[-1]]) 2 = [[1; 2]; [-1; 2]] /\
+  cnf_models_n (fst (edit_spec [[-1; -2]] 2 [[2]] [[-1]])) 2 = [[-1; 2]] /\
+  cnf_models_n (adjust_intern_cnf [[-1; -2]] [[2]] [[-1]]) 2 = [[-1; 2]].
+Proof. exact recompile_adjusts_twice_refuted. Qed.
+Print Assumptions C11_recompile_adjusts_twice_refuted.
+
 (* the code before F14 (K23): removing two different clauses at once removed nothing; the repaired
    code removes both, as the specification *)
 Theorem C11_multi_removal_refuted_v0 :
